@@ -8,7 +8,7 @@ if ! git -C "$wt" apply "$patch"; then echo "PATCH DOES NOT APPLY"; git -C /repo
 # untracked verif-tagged accessor files of builders still at work (not yet committed in /repo)
 (cd /repo && git ls-files --others --exclude-standard | grep -E 'verif_(export|hook)' | while read f; do mkdir -p "$wt/$(dirname $f)"; cp "$f" "$wt/$f"; done)
 # the COMMITTED state of /verif (builders may be mid-edit in the working copy), plus the build caches
-mkdir -p "$vv" && git -C /verif archive HEAD | tar -x -C "$vv" && rsync -a /verif/.cache "$vv"/ && mkdir -p "$vv/lean" && rsync -a /verif/lean/.lake "$vv/lean"/
+mkdir -p "$vv" && git -C /verif archive $(git -C /verif rev-parse -q --verify good >/dev/null && echo good || echo HEAD) | tar -x -C "$vv" && rsync -a /verif/.cache "$vv"/ && mkdir -p "$vv/lean" && rsync -a /verif/lean/.lake "$vv/lean"/
 rm -f "$vv"/.cache/pb.stamp
 for p in "$@"; do
   (cd "$vv" && VERIF_REPO="$wt" timeout 1800 ./check "$p" "$tier" 2>"$vv/err_$p.txt" | grep -E "^(VIOLATION|KNOWN-FINDING)" | sed "s#$vv#/verif#" ; echo "== $p exit=$?"; grep -E "diverg|broken obligation|\.go:[0-9]+:[0-9]+:" "$vv/err_$p.txt" | head -5 | cut -c1-300)
